@@ -673,6 +673,33 @@ pub fn check(scn: &C11Scenario, stats: &mut RunStats) -> Result<Vec<Violation>, 
             faulty.insert(bad.clone());
         }
     }
+    let mut luaurc_may_fail: BTreeSet<String> = BTreeSet::new();
+    // a `.luaurc` that cannot be loaded fails every source it governs (the nearest one
+    // above the file)
+    let luaurc_dirs: Vec<String> = scn
+        .entries
+        .iter()
+        .filter(|e| gen::file_name(&e.path) == ".luaurc")
+        .map(|e| gen::parent(&e.path).to_owned())
+        .collect();
+    for bad in direct_bad.iter().filter(|b| gen::file_name(b) == ".luaurc") {
+        let bad_dir = gen::parent(bad).to_owned();
+        for source in &lay.expected {
+            let nearest = luaurc_dirs
+                .iter()
+                .filter(|d| d.is_empty() || source.starts_with(&format!("{}/", d)))
+                .max_by_key(|d| d.len());
+            if nearest == Some(&bad_dir) {
+                if lay.excluded.contains(source) {
+                    // rules are not applied to a file the top-level filters exclude:
+                    // whether the `.luaurc` is looked at for it is not promised
+                    luaurc_may_fail.insert(source.clone());
+                } else {
+                    faulty.insert(source.clone());
+                }
+            }
+        }
+    }
     for u in unwritable_sources(scn, &lay) {
         // nothing is ever written for a source the top-level filters exclude
         if !lay.excluded.contains(&u) {
@@ -691,6 +718,7 @@ pub fn check(scn: &C11Scenario, stats: &mut RunStats) -> Result<Vec<Violation>, 
         }
     }
     let mut may_fail: BTreeSet<String> = faulty.clone();
+    may_fail.extend(luaurc_may_fail);
     if scn.transient {
         for rule in &scn.faults {
             if rule.nth.is_none() {
@@ -1326,6 +1354,26 @@ pub fn generate(seed: u64) -> C11Scenario {
             } else {
                 rf.below(4)
             };
+            // a `.luaurc` that cannot be loaded: every file it governs must be reported
+            // (and only those), whichever of them is processed first
+            let luaurcs: Vec<String> = project
+                .other
+                .iter()
+                .filter(|e| gen::file_name(&e.path) == ".luaurc")
+                .map(|e| e.path.clone())
+                .collect();
+            if !luaurcs.is_empty()
+                && (project.bundle.is_some() || project.convert)
+                && parts.apply_to_files.is_empty()
+                && parts.skip_files.is_empty()
+                && !bad_files.iter().any(|b| gen::file_name(b) == ".luaurc")
+                && rf.chance(1, 4)
+            {
+                let path = rf.pick(&luaurcs).clone();
+                overrides.push((path.clone(), Body::Text("{ \"aliases\": { \"lib\": ".to_owned())));
+                bad_files.push(path);
+                continue;
+            }
             match pick {
                 0 | 1 => {
                     let body = rf.pick(corpus::SYNTAX_ERRORS).replace("{M}", &format!("\"{}\"", marker));
